@@ -456,7 +456,7 @@ CONFIGS = {
 CONFIGS["thorough"] = CONFIGS["quick"] + [{"kind": "live", "W": 20, "transient": True, "overflow": "crop"},
                                           {"kind": "progress", "W": 20, "transient": False},
                                           {"kind": "status", "W": 20}]
-DEPTH = {"quick": {"live": 4, "progress": 5, "status": 5}, "thorough": {"live": 6, "progress": 7, "status": 8}}
+DEPTH = {"quick": {"live": 4, "progress": 5, "status": 5}, "thorough": {"live": 5, "progress": 7, "status": 6}}
 FAULT_DEPTH = {"quick": {"live": 3, "progress": 3, "status": 0}, "thorough": {"live": 4, "progress": 4, "status": 0}}
 
 
